@@ -833,6 +833,18 @@ func RunDiffProgram(p *Program) *Result {
 				res.logf("  VIOLATION [%s] %s", w.Cfg.Backend, v.String())
 			}
 		}
+		if (wm.stepViolations > 0) != (ws.stepViolations > 0) {
+			// one backend breaks the shared contract where the other honours it:
+			// they are not observationally equivalent
+			bad := wm
+			if ws.stepViolations > 0 {
+				bad = ws
+			}
+			v := viol("C13.deviates."+s.Op, "C13", "only the %s backend deviates from the shared contract at this step: %s", bad.Cfg.Backend, bad.Res.Violations[len(bad.Res.Violations)-1].String())
+			v.Loc = "diff/" + s.Op + "/" + bad.Cfg.Backend
+			res.Violations = append(res.Violations, v)
+			res.logf("  VIOLATION %s", v.String())
+		}
 		same := wm.Model.Canon() == ws.Model.Canon()
 		if wm.last != ws.last {
 			if same || (s.Op != "dequeue" && wm.stepViolations == 0 && ws.stepViolations == 0 && !legitSplit(s.Op)) {
